@@ -578,6 +578,20 @@ func (env *specEnv) evalCall(x *SCall) TV {
 			}
 		}
 		env.fail("fld: no field %s in %s", fs.V, ts.V)
+	case "wfail": // a write to a writer has failed (ghost set by io.WriteString)
+		argn(0)
+		return TV{T: env.heap("X|wfail|Bool"), Sort: "Bool"}
+	case "wafterfail": // a write was attempted after an earlier one had failed
+		argn(0)
+		return TV{T: env.heap("X|wafterfail|Bool"), Sort: "Bool"}
+	case "rbuflen": // rbuflen(w): content length of the writer / buffer object at raw reference w
+		argn(1)
+		a := env.eval(x.Args[0])
+		return TV{T: app("select", env.heap("BL"), a.T), Sort: "Int"}
+	case "rbufdata":
+		argn(1)
+		a := env.eval(x.Args[0])
+		return TV{T: app("select", env.heap("BD"), a.T), Sort: "(Array Int Int)"}
 	case "keyof": // keyof(s): canonical map key of a string
 		argn(1)
 		a := env.eval(x.Args[0])
